@@ -139,8 +139,17 @@ class hid:
             self._log.debug("hid failed to open %s (%s) - waiting to try again", self._path, ex)
             self._reconnect_task = asyncio.create_task(self._reconnect())
             return False
+        try:
+            self._initialise_device()
+        except OSError as e:
+            # The device went away again before we could talk to
+            # it.  Treat this like a failure to open it.
+            self._log.debug("hid failed to initialise %s (%s) - waiting to try again", path[0], e)
+            os.close(self._f)
+            self._f = None
+            self._reconnect_task = asyncio.create_task(self._reconnect())
+            return False
         self._reconnect_count = 0
-        self._initialise_device()
         self._log.debug("hid opened %s", path[0])
         asyncio.get_running_loop().add_reader(self._f, self._reader)
         self.connection_status_callback._invoke("connected")
